@@ -82,6 +82,11 @@ CANARIES = [
     ('avx_bluesteins', 'S', r'let chunk_count = div_ceil\(len, (\d)\);', r'let chunk_count = len / \1;', 'new_with_avx'),
     ('avx_bluesteins', 'S', r'let required_scratch = inner_fft_input\.len\(\) \+ inner_fft_scratch\.len\(\);', 'let required_scratch = inner_fft_input.len();', 'new_with_avx'),
     ('avx_bluesteins', 'S', r'inner_fft_input\[inner_fft_len - i\] = twiddle;', 'inner_fft_input[inner_fft_len - i + 1] = twiddle;', 'new_with_avx'),
+    ('avx_kernels_f32', 'S', r'verif_store_complex\(verif_out,\s*output1\[r\], 8 \* r \+ 4\);', 'verif_store_complex(verif_out, output1[r], 8 * r + 5);', 'perform_fft_f32'),
+    ('avx_kernels_f32', 'S', r'self\.twiddles\[r - 1 \+ 7\]', 'self.twiddles[r - 1 + 8]', 'perform_fft_f32'),
+    ('avx_kernels_f32', 'S', r'verif_load_complex\(verif_in,\s*12 \* r \+ 8\)', 'verif_load_complex(verif_in, 12 * r + 9)', 'perform_fft_f32'),
+    ('avx_kernels_f64', 'S', r'mid_uninit\[4 \* chunk \+ 3\]', 'mid_uninit[4 * chunk + 4]', 'column_butterflies_and_transpose'),
+    ('avx_kernels_f64', 'S', r'for columnset in 0\.\.\(verif_array_len\(&self\.twiddles\) / TWIDDLES_PER_COLUMN\)', 'for columnset in 0..(verif_array_len(&self.twiddles) / TWIDDLES_PER_COLUMN + 1)', 'column_butterflies_and_transpose'),
     ('sse_radix4', 'S', r'let twiddle_offset = num_vector_columns \* \(ROW_COUNT - 1\);', 'let twiddle_offset = num_vector_columns * ROW_COUNT;', 'perform_fft_immut'),
     ('partial_factors', 'S', r'power3: self\.power3 - divisor\.power3,', 'power3: self.power3 - divisor.power2,', 'divide_by'),
     ('prime_roots', 'S', r'divisor \+= 2;', 'divisor += 4;', 'distinct_prime_factors'),
